@@ -3,8 +3,9 @@ SPECIFICATION Spec
 CONSTANTS
   Order = "code"
   D1Fixed = TRUE
+  HopSafe = TRUE
   CLNormalised = TRUE
   BigBodies = FALSE
-  Families = {"mini"}
+  Families = {"mini", "hop"}
 INVARIANTS TypeOK RulesHold ComposedAgrees SignedIsReceived BodyIntact SignedAfterStrip SignedAfterIdentity
 CHECK_DEADLOCK FALSE
